@@ -55,6 +55,7 @@ type txSpec struct {
 	DataLen  int
 	NZ       int
 	Chain    string
+	Fit      int    // > 0: adjust the payload so that the signed transaction encodes to exactly this many bytes
 	Resubmit *txrec // submit this earlier transaction again instead of a new one
 }
 
@@ -102,6 +103,11 @@ type session struct {
 	dead     bool
 	nextID   int
 	events   int
+
+	reheapObs bool                 // observe through VerifSnapshot (which re-heaps the price list) instead of the read-only view
+	script    []stepFn             // pending steps of a directed episode (gen.go)
+	migrated  map[common.Hash]bool // transactions that were in the pool as remote ones when their sender became local
+	switched  map[common.Address]bool
 }
 
 func (s *session) logf(f string, a ...interface{}) {
@@ -116,7 +122,7 @@ func (s *session) witness() interface{} {
 		tr = tr[skipped:]
 	}
 	w := map[string]interface{}{"limits": s.lim, "lifetime_mode": s.lifetime, "no_locals": s.noLocals, "price_limit": s.cfg.PriceLimit,
-		"preset_locals": len(s.cfg.Locals), "journal": s.cfg.Journal != "", "genesis_height": s.genesisHeight(), "ops_omitted": skipped, "ops": tr}
+		"preset_locals": len(s.cfg.Locals), "journal": s.cfg.Journal != "", "reheaping_observer": s.reheapObs, "genesis_height": s.genesisHeight(), "ops_omitted": skipped, "ops": tr}
 	if s.pool != nil {
 		if v, _ := s.observe(false); v != nil {
 			w["pool_now"] = dumpView(v)
@@ -195,6 +201,16 @@ func (s *session) close() {
 	}
 }
 
+// finish ends a history with one observation through the re-heaping snapshot hook, for the
+// consistency checks only that hook makes (lists against the pool's own counters).
+func (s *session) finish() {
+	if s.dead || s.pool == nil {
+		return
+	}
+	s.reheapObs = true
+	s.check(false)
+}
+
 // fixpoint: two idle reorg runs (DESIGN calibration: limits are enforced lazily).
 func (s *session) fixpoint() {
 	s.pool.VerifWaitReorg()
@@ -204,7 +220,16 @@ func (s *session) fixpoint() {
 // observe takes one atomic snapshot through the hook and translates it; with cross the
 // public API views are compared with it (only meaningful when nothing runs concurrently).
 func (s *session) observe(cross bool) (*view, *finding) {
-	ix, ierr := s.pool.VerifSnapshot()
+	// The read-only view is the normal observation: VerifSnapshot re-heaps the price list, and an
+	// observer that repairs the heap after every operation hides everything that depends on
+	// stale heap entries (migrated, removed and re-added transactions).
+	var ix *tx_pool.VerifIndex
+	var ierr error
+	if s.reheapObs {
+		ix, ierr = s.pool.VerifSnapshot()
+	} else {
+		ix = s.pool.VerifView()
+	}
 	v := &view{pending: map[common.Address][]*txrec{}, queued: map[common.Address][]*txrec{}, where: map[common.Hash]place{},
 		locals: ix.Locals, localTx: ix.All}
 	var f *finding
@@ -243,6 +268,22 @@ func (s *session) observe(cross bool) (*view, *finding) {
 	}
 	load('p', ix.Pending, v.pending)
 	load('q', ix.Queue, v.queued)
+	if !s.reheapObs {
+		// the view lists a sender's transactions in map order: sort by nonce, re-index the positions
+		for _, side := range []map[common.Address][]*txrec{v.pending, v.queued} {
+			for _, l := range side {
+				sort.SliceStable(l, func(i, j int) bool { return l[i].nonce < l[j].nonce })
+				for i, t := range l {
+					v.where[t.hash] = place{v.where[t.hash].list, i}
+				}
+			}
+		}
+		for a, l := range v.pending {
+			if n := len(l); n > 0 && ix.PendingNonce[a] != l[n-1].nonce+1 {
+				note("internal:pending-nonce", fmt.Sprintf("pending nonce mismatch for %x: have %d, want %d", a[:4], ix.PendingNonce[a], l[n-1].nonce+1))
+			}
+		}
+	}
 	for h := range ix.All {
 		if _, ok := v.where[h]; !ok {
 			what := fmt.Sprintf("%x", h[:4])
@@ -347,11 +388,14 @@ func (s *session) crossCheckWith(v *view, accts []*account) *finding {
 	return f
 }
 
-// settle = observe + structural (+ limits at the fixpoint).
+// settle = observe + structural + slot limit (+ the other limits at the fixpoint).
 func (s *session) check(atFixpoint bool) *view {
 	v, f := s.observe(false)
 	if f == nil {
 		f = checkStructural(v, s.ch.Head())
+	}
+	if f == nil {
+		f = checkSlots(v, s.lim)
 	}
 	if f == nil && !s.lifetime {
 		f = s.crossCheck(v)
@@ -363,7 +407,34 @@ func (s *session) check(atFixpoint bool) *view {
 		s.fail(f)
 		return nil
 	}
+	s.noteOccupancy(v)
 	return v
+}
+
+// noteOccupancy records how close to (or, with exempt transactions only, how far above) its
+// slot limit the pool was observed.
+func (s *session) noteOccupancy(v *view) {
+	limit := int(s.lim.GlobalSlots + s.lim.GlobalQueue)
+	bound := false // a non-exempt transaction is present: the limit binds
+	for _, m := range []map[common.Address][]*txrec{v.pending, v.queued} {
+		for _, l := range m {
+			for _, t := range l {
+				if !v.exempt(t) {
+					bound = true
+				}
+			}
+		}
+	}
+	switch {
+	case bound:
+		s.run.Max(fmt.Sprintf("slots_held_with_remote_txs:limit_%d", limit), int64(v.slots))
+		if v.slots == limit {
+			s.run.Count("obs_pool_exactly_at_slot_limit", 1)
+		}
+	case v.slots > limit:
+		s.run.Count("obs_pool_above_slot_limit_exempt_txs_only", 1)
+		s.run.Max(fmt.Sprintf("slots_held_exempt_txs_only:limit_%d", limit), int64(v.slots))
+	}
 }
 
 func (s *session) isLocalAcct(v *view, a common.Address) bool { return v.locals[a] }
@@ -443,6 +514,16 @@ func (s *session) build(sp txSpec) *txrec {
 		ch = "plain"
 	}
 	t := buildTx(s.c.I*100000+s.nextID, a, sp.Nonce, big.NewInt(sp.Price), sp.Gas, val, sp.DataLen, sp.NZ, ch)
+	for i := 0; sp.Fit > 0 && t.encSize != sp.Fit && sp.DataLen+sp.Fit-t.encSize >= 0 && i < 3; i++ {
+		sp.DataLen += sp.Fit - t.encSize
+		if sp.NZ == 0 {
+			sp.Gas = zeroGas(sp.DataLen) + 1000
+		}
+		t = buildTx(s.c.I*100000+s.nextID, a, sp.Nonce, big.NewInt(sp.Price), sp.Gas, val, sp.DataLen, sp.NZ, ch)
+	}
+	if sp.Fit > 0 && t.encSize == sp.Fit && sp.Fit%slotBytes <= 1 {
+		s.run.Count("txs_sized_exactly_at_slot_boundary", 1)
+	}
 	s.nextID++
 	t.black = sp.Acct == blackIdx
 	s.recs = append(s.recs, t)
@@ -500,29 +581,95 @@ func (s *session) doAdd(op *opSpec) {
 	}
 	s.logf("add via=%s %s", op.Via, strings.Join(desc, " "))
 	s.run.Count("op:add:"+op.Via, 1)
+	if viaLocal && s.noLocals {
+		s.run.Count("op:add:local:locals_disabled", 1)
+	}
 	s.run.Count("submissions", len(recs))
 
 	imm := s.check(false)
 	if imm == nil {
 		return
 	}
-	// admission predicate
+	// admission predicate. The model follows the content of the pool through the call: it is
+	// exact (outside expiry histories) until the pool has to make room for the first time;
+	// which transactions it then discards among equally priced ones is out of the model's reach.
+	limit := int(s.lim.GlobalSlots + s.lim.GlobalQueue)
 	occupant := map[slotKey]*txrec{}
 	uncertain := map[slotKey]bool{}
+	inPending := map[slotKey]bool{} // the nonce slot is held by a pending transaction
 	for _, m := range []map[common.Address][]*txrec{pre.pending, pre.queued} {
 		for a, l := range m {
 			for _, t := range l {
 				occupant[slotKey{a, t.nonce}] = t
+				if pre.where[t.hash].list == 'p' {
+					inPending[slotKey{a, t.nonce}] = true
+				}
 				if s.lifetime && !pre.locals[a] && pre.where[t.hash].list == 'q' {
 					uncertain[slotKey{a, t.nonce}] = true // may have expired since the last observation
 				}
 			}
 		}
 	}
-	allUncertain := false
-	slotsSoFar := pre.slots
+	localNow := map[common.Address]bool{} // senders the pool treats as local at this point of the call
+	for a := range pre.locals {
+		localNow[a] = true
+	}
+	flagged := map[common.Hash]bool{} // transactions exempt by their own flag (see view.exempt)
+	for h, l := range pre.localTx {
+		if l {
+			flagged[h] = true
+		}
+	}
+	exemptNow := func(o *txrec) bool { return localNow[o.from.addr] || flagged[o.hash] }
+	mayBeFull := false // sticky: the pool may have had to make room (upper estimate of its content)
+	madeRoom := false  // the model has seen the first make-room step of this call
+	upperSlots := pre.slots
+	modelSlots := pre.slots
 	var accepted []*txrec
 	allClearCut := true
+	// bumpRule judges the outcome for a transaction that has room: fresh nonce slot = accepted,
+	// occupied = price-bump rule. oldMayBeGone: the occupant may have been discarded to make room.
+	bumpRule := func(t, old *txrec, err error, cls string, oldMayBeGone bool, ctx string) bool {
+		if old == nil {
+			if err != nil {
+				s.fail(&finding{"valid-tx-rejected:" + cls, fmt.Sprintf("valid %v (free nonce slot, %s) refused with %q", t, ctx, err.Error())})
+				return false
+			}
+			s.run.Count("accepted_fresh_slot", 1)
+			return true
+		}
+		switch bumpVerdict(old.price, t.price, s.lim.PriceBump) {
+		case 1:
+			if err != nil {
+				s.fail(&finding{"replacement-refused-above-bump", fmt.Sprintf("%v offers the required bump over %v but was refused: %v", t, old, err)})
+				return false
+			}
+			s.run.Count("replacements_accepted", 1)
+			if pre.has(old.hash) && pre.where[old.hash].list == 'p' {
+				s.run.Count("replacements_accepted_pending", 1)
+			}
+		case -1:
+			if err == nil && oldMayBeGone {
+				break
+			}
+			if err == nil {
+				s.fail(&finding{"replacement-accepted-below-bump", fmt.Sprintf("%v replaced %v without the required %d%% bump", t, old, s.lim.PriceBump)})
+				return false
+			}
+			if cls != "replace-underpriced" {
+				s.fail(&finding{"valid-tx-rejected:" + cls, fmt.Sprintf("%v (insufficient bump over %v) refused with %q", t, old, err.Error())})
+				return false
+			}
+			s.run.Count("replacements_refused", 1)
+		default:
+			s.run.Count("replacements_in_rounding_zone", 1)
+			if err != nil && cls != "replace-underpriced" {
+				s.fail(&finding{"valid-tx-rejected:" + cls, fmt.Sprintf("%v refused with %q", t, err.Error())})
+				return false
+			}
+		}
+		return true
+	}
 	for i, t := range recs {
 		err := errs[i]
 		cls := errClass(err)
@@ -558,11 +705,134 @@ func (s *session) doAdd(op *opSpec) {
 			continue
 		}
 		allClearCut = false
-		slotsSoFar += t.slots()
-		if uint64(slotsSoFar) > s.lim.GlobalSlots+s.lim.GlobalQueue {
-			allUncertain = true
+		n := t.slots()
+		multi := ""
+		if n > 1 {
+			multi = "_multislot"
+			s.run.Count("multislot_valid_submissions", 1)
+			if err == nil {
+				s.run.Count("multislot_accepted", 1)
+			}
 		}
-		if allUncertain || uncertain[k] {
+		upperSlots += n
+		if upperSlots > limit {
+			mayBeFull = true
+		}
+		old := occupant[k]
+		if !s.lifetime && !madeRoom {
+			// ---- the model knows the exact content ----
+			if modelSlots+n <= limit {
+				// room without discarding anything
+				if !bumpRule(t, old, err, cls, false, "pool not full") {
+					return
+				}
+				if err == nil {
+					if old != nil {
+						modelSlots -= old.slots()
+					}
+					modelSlots += n
+					occupant[k] = t
+					if viaLocal && !s.noLocals {
+						if inPending[k] && !localNow[t.from.addr] {
+							// replacement of a pending transaction: the transaction is flagged, the sender is not recorded
+							flagged[t.hash] = true
+							s.run.Count("local_submissions_replacing_pending_sender_not_recorded", 1)
+						} else {
+							localNow[t.from.addr] = true
+						}
+					}
+				}
+				continue
+			}
+			// ---- first make-room step of the call: strict admission decision ----
+			madeRoom, mayBeFull = true, true
+			uncertain[k] = true
+			need := modelSlots + n - limit
+			fv := fullPoolVerdict(t, isLocal, occupant, exemptNow, need)
+			s.run.Count("full_pool_arrivals_judged"+multi, 1)
+			if modelSlots < limit {
+				// occupancy within n-1 slots of the limit: only a multi-slot transaction gets here
+				s.run.Count("multislot_arrivals_pool_almost_full", 1)
+				s.run.Distinct("multislot_almost_full_shapes", fmt.Sprintf("free%d/slots%d/local%v/%s", limit-modelSlots, n, isLocal, fv.must))
+			}
+			mig, migCheaper := 0, 0
+			for _, o := range occupant {
+				if s.migrated[o.hash] && localNow[o.from.addr] {
+					mig++
+					if o.price.Cmp(t.price) < 0 && (fv.cheapest == nil || o.price.Cmp(fv.cheapest) < 0) {
+						migCheaper++
+					}
+				}
+			}
+			if modelSlots < limit && !isLocal {
+				switch fv.must {
+				case rjPrice:
+					s.run.Count("multislot_almost_full_refused_underpriced", 1)
+				case "":
+					s.run.Count("multislot_almost_full_room_made", 1)
+				}
+			}
+			if mig > 0 {
+				s.run.Count("full_pool_arrivals_with_migrated_txs_in_pool", 1)
+			}
+			if migCheaper > 0 {
+				s.run.Count("full_pool_arrivals_migrated_tx_is_cheapest", 1)
+			}
+			switch {
+			case isLocal:
+				if cls == rjPrice {
+					s.fail(&finding{"local-rejected-underpriced", fmt.Sprintf("local %v refused for its price", t)})
+					return
+				}
+				if cls == "pool-full" {
+					s.fail(&finding{"local-refused-pool-full", fmt.Sprintf("local %v refused with %q: a local submission is admitted by force (first make-room step since the last reorg run)", t, err.Error())})
+					return
+				}
+				s.run.Count("full_pool_local_forced"+multi, 1)
+				if !bumpRule(t, old, err, cls, old != nil && !exemptNow(old), "pool full, local") {
+					return
+				}
+			case fv.must == rjPrice:
+				s.run.Count("full_pool_refused_underpriced"+multi, 1)
+				if err == nil {
+					s.fail(&finding{"admission:underpriced-into-full-pool:accepted", fmt.Sprintf("%v (%d slots) pays no more than the cheapest of the %d non-exempt transactions (%v) of a pool holding %d of %d slots: it must be refused as underpriced but was accepted", t, n, fv.remotes, fv.cheapest, modelSlots, limit)})
+					return
+				}
+				if cls != rjPrice {
+					s.fail(&finding{"admission:underpriced-into-full-pool:wrong-error", fmt.Sprintf("%v (%d slots) pays no more than the cheapest non-exempt transaction (%v) of a full pool (%d of %d slots): must be refused as underpriced, got %q", t, n, fv.cheapest, modelSlots, limit, err.Error())})
+					return
+				}
+			case fv.must == "pool-full":
+				s.run.Count("full_pool_refused_no_room"+multi, 1)
+				if err == nil {
+					s.fail(&finding{"admission:no-room:accepted", fmt.Sprintf("%v needs %d more slots, the %d non-exempt transactions hold only %d: it must be refused (pool full) but was accepted", t, need, fv.remotes, fv.remoteSlots)})
+					return
+				}
+				if cls != "pool-full" {
+					s.fail(&finding{"admission:no-room:wrong-error", fmt.Sprintf("%v needs %d more slots, the %d non-exempt transactions hold only %d: must be refused as pool full, got %q", t, need, fv.remotes, fv.remoteSlots, err.Error())})
+					return
+				}
+			default:
+				s.run.Count("full_pool_room_made"+multi, 1)
+				if cls == rjPrice {
+					s.fail(&finding{"valid-tx-rejected:underpriced-above-cheapest", fmt.Sprintf("%v pays more than the cheapest non-exempt transaction (%v) of the full pool but was refused as underpriced", t, fv.cheapest)})
+					return
+				}
+				if cls == "pool-full" {
+					s.fail(&finding{"valid-tx-rejected:pool-full-with-room-to-make", fmt.Sprintf("%v needs %d more slots, non-exempt cheaper-first discards could free %d, yet it was refused with %q (first make-room step since the last reorg run)", t, need, fv.remoteSlots, err.Error())})
+					return
+				}
+				if !bumpRule(t, old, err, cls, old != nil && !exemptNow(old), "pool full, room can be made") {
+					return
+				}
+			}
+			if err == nil {
+				occupant[k] = t
+			}
+			continue
+		}
+		// ---- content not exactly known: expiry history, or the pool has made room before ----
+		if mayBeFull || uncertain[k] {
 			// capacity-dependent: the pool may evict before it decides (DESIGN calibration)
 			s.run.Count("capacity_dependent_submissions", 1)
 			uncertain[k] = true
@@ -579,45 +849,11 @@ func (s *session) doAdd(op *opSpec) {
 			}
 			continue
 		}
-		old := occupant[k]
-		if old == nil {
-			if err != nil {
-				s.fail(&finding{"valid-tx-rejected:" + cls, fmt.Sprintf("valid %v (free nonce slot, pool not full) refused with %q", t, err.Error())})
-				return
-			}
-			s.run.Count("accepted_fresh_slot", 1)
-			occupant[k] = t
-			continue
+		if !bumpRule(t, old, err, cls, false, "pool not full") {
+			return
 		}
-		switch bumpVerdict(old.price, t.price, s.lim.PriceBump) {
-		case 1:
-			if err != nil {
-				s.fail(&finding{"replacement-refused-above-bump", fmt.Sprintf("%v offers the required bump over %v but was refused: %v", t, old, err)})
-				return
-			}
-			s.run.Count("replacements_accepted", 1)
-			if pre.where[old.hash].list == 'p' {
-				s.run.Count("replacements_accepted_pending", 1)
-			}
+		if err == nil {
 			occupant[k] = t
-		case -1:
-			if err == nil {
-				s.fail(&finding{"replacement-accepted-below-bump", fmt.Sprintf("%v replaced %v without the required %d%% bump", t, old, s.lim.PriceBump)})
-				return
-			}
-			if cls != "replace-underpriced" {
-				s.fail(&finding{"valid-tx-rejected:" + cls, fmt.Sprintf("%v (insufficient bump over %v) refused with %q", t, old, err.Error())})
-				return
-			}
-			s.run.Count("replacements_refused", 1)
-		default:
-			s.run.Count("replacements_in_rounding_zone", 1)
-			if err == nil {
-				occupant[k] = t
-			} else if cls != "replace-underpriced" {
-				s.fail(&finding{"valid-tx-rejected:" + cls, fmt.Sprintf("%v refused with %q", t, err.Error())})
-				return
-			}
 		}
 	}
 	if allClearCut && !s.lifetime && !sameContent(pre, imm) {
@@ -633,8 +869,53 @@ func (s *session) doAdd(op *opSpec) {
 		return
 	}
 	s.transition(post, accepted, nil, nil, false, nil)
-	// a replaced transaction must be gone, the replacement in its place
+	s.noteRoleSwitches(pre, post)
 	s.pre = post
+}
+
+// noteRoleSwitches records the senders that became local in the operation just judged, and
+// which of their transactions were in the pool as remote ones at that moment ("migrated":
+// from then on they are exempt like any other transaction of a local sender).
+func (s *session) noteRoleSwitches(pre, post *view) {
+	for a := range post.locals {
+		if pre.locals[a] {
+			continue
+		}
+		s.run.Count("role_switches", 1)
+		s.switched[a] = true
+		remotes, m := 0, 0
+		for h := range pre.where {
+			t := s.byHash[h]
+			switch {
+			case t.from.addr != a:
+				if !pre.exempt(t) {
+					remotes++
+				}
+			case post.has(h) && !pre.localTx[h]:
+				s.migrated[h] = true
+				m++
+			}
+		}
+		if m > 0 {
+			s.run.Count("role_switches_with_remote_txs_in_pool", 1)
+			s.run.Count("migrated_txs", m)
+			if m > 4 {
+				m = 4
+			}
+			s.run.Distinct("role_switch_shapes", fmt.Sprintf("migrated%d/other_remotes%d", m, remotes))
+		}
+	}
+}
+
+// migratedIn lists the migrated transactions a view holds (sender still local).
+func (s *session) migratedIn(v *view) []*txrec {
+	var out []*txrec
+	for h := range v.where {
+		if t := s.byHash[h]; s.migrated[h] && v.locals[t.from.addr] {
+			out = append(out, t)
+		}
+	}
+	return out
 }
 
 func (s *session) doHead(op *opSpec) {
@@ -770,6 +1051,23 @@ func (s *session) doPrice(op *opSpec) {
 		return
 	}
 	s.transition(post, nil, nil, maxPrice, true, nil)
+	if maxPrice != nil {
+		// the exemption at work for senders that became local: their transactions from the remote
+		// days that pay less than the new threshold (transition has judged the ones that left)
+		below, spared := 0, 0
+		for _, t := range s.migratedIn(s.pre) {
+			if t.price.Cmp(maxPrice) < 0 {
+				below++
+				if post.has(t.hash) {
+					spared++
+				}
+			}
+		}
+		if below > 0 {
+			s.run.Count("price_raises_over_migrated_txs", 1)
+			s.run.Count("price_raises_migrated_txs_spared", spared)
+		}
+	}
 	s.pre = post
 }
 
@@ -858,6 +1156,7 @@ func (s *session) exec(op *opSpec) {
 
 type sessionOpts struct {
 	lifetime, noLocals, presetLocal, journal bool
+	reheapObs                                bool
 	priceLimit                               uint64
 	genesisHeight                            uint64
 	lim                                      limits
@@ -865,7 +1164,8 @@ type sessionOpts struct {
 
 func newSession(c *core.Case, o sessionOpts) *session {
 	s := &session{c: c, run: c.Run, lim: o.lim, lifetime: o.lifetime, noLocals: o.noLocals,
-		byHash: map[common.Hash]*txrec{}, everAcc: map[common.Hash]bool{}, everLoc: map[common.Address]bool{}}
+		byHash: map[common.Hash]*txrec{}, everAcc: map[common.Hash]bool{}, everLoc: map[common.Address]bool{},
+		reheapObs: o.reheapObs, migrated: map[common.Hash]bool{}, switched: map[common.Address]bool{}}
 	cfg := tx_pool.DefaultTxPoolConfig
 	cfg.Journal = ""
 	cfg.Rejournal = time.Hour
